@@ -395,4 +395,36 @@ theorem mergeLoop_agree {α} (G : Nat → α) (idxOf : List Nat → List Nat) (c
           · exact Or.inr ⟨by rw [hlen]; exact hlt, l, hl', hgl⟩)
     exact ⟨this.1, this.2.trans hlen⟩
 
+
+/-- pieces carrying restrictions of one global field merge to the whole field -/
+theorem mergeStructured_whole {α} (isPoint : Bool) (d : List (List Nat))
+    (hne : isPoint = false ∨ ∀ ns ∈ d, ns ≠ []) (G : Nat → α) (cb : List Nat → List α) (zero : α)
+    (hcb : ∀ loc ∈ locationsIn (piecesShape d), cb loc = (pieceEntityIndices isPoint d loc).map G) :
+    mergeStructured isPoint d cb zero = (List.range (prodShape (mergedShape isPoint d))).map G := by
+  apply List.ext_getElem?
+  intro g
+  unfold mergeStructured
+  by_cases hg : g < prodShape (mergedShape isPoint d)
+  · have hcov : ∃ loc ∈ locationsIn (piecesShape d), g ∈ pieceEntityIndices isPoint d loc := by
+      rw [mergedShape_eq] at hg
+      obtain ⟨loc, it, hloc, hit, hflat⟩ := structured_cover (if isPoint then 1 else 0) d
+        (hne.elim (fun h => Or.inl (by simp [h])) Or.inr) g hg
+      exact ⟨loc, (mem_locationsIn _ _).mpr hloc,
+        (mem_pieceEntityIndices isPoint d loc g).mpr ⟨it, hit, hflat⟩⟩
+    have := (mergeLoop_agree G (pieceEntityIndices isPoint d) cb (locationsIn (piecesShape d)) hcb
+      (List.replicate (prodShape (mergedShape isPoint d)) zero) (fun _ => False)
+      (fun _ h => h.elim) g (Or.inr ⟨by simpa using hg, hcov⟩)).1
+    rw [this]
+    simp [hg]
+  · have hlen := mergeLoop_length (pieceEntityIndices isPoint d) cb (locationsIn (piecesShape d))
+      (List.replicate (prodShape (mergedShape isPoint d)) zero)
+    rw [List.getElem?_eq_none (by rw [hlen]; simpa using hg), List.getElem?_eq_none (by simpa using hg)]
+
+theorem pieceEntityIndices_lt (isPoint : Bool) (d : List (List Nat)) (loc : List Nat)
+    (hloc : loc ∈ locationsIn (piecesShape d)) (g : Nat) (hg : g ∈ pieceEntityIndices isPoint d loc) :
+    g < prodShape (mergedShape isPoint d) := by
+  obtain ⟨it, hit, rfl⟩ := (mem_pieceEntityIndices isPoint d loc g).mp hg
+  rw [mergedShape_eq]
+  exact structured_in_range _ d loc it ((mem_locationsIn _ _).mp hloc) hit
+
 end Fc.C06
